@@ -5,6 +5,7 @@ import os
 import random
 import shutil
 import subprocess
+import tempfile
 import warnings
 
 import numpy as np
@@ -31,7 +32,21 @@ ASSUMPTIONS = ["objects are built through the public constructors (sorted timest
                "REPEATED column labels are inside the quantifier and generated (with metadata the load raises: known finding, Coq witness "
                "C11_tsdframe_duplicate_labels_refuted)",
                "TsGroup members are all Ts or all Tsd with finite data; members are built as float64 (the dtype of a member is not named by the statement: "
-               "an int64 member comes back float64)"]
+               "an int64 member comes back float64)",
+               "WIDENED argument forms (families time_forms, data_dtypes, frame_labels_metadata, intervalset_forms, tsgroup_forms, degenerate_support, histories, "
+               "routes): only forms the documented signatures accept are generated - a pandas Series passed as `t` of Ts / Tsd means index = times, values = "
+               "data (generated as that: Tsd from a Series), raw member arrays of a TsGroup are lists / array-likes (a tuple is refused by the constructor), an "
+               "IntervalSet passed as `start` gives its intervals (not its metadata), the extra columns of a DataFrame passed as `start` are the metadata, ms / us "
+               "floats lie on the microsecond lattice, integer-dtype time arrays hold whole units; a constructor that raises on one of these forms is reported "
+               "(part build_exception)",
+               "group members of float32 / float16 / int / uint / bool data ARE generated (widening): their values are compared exactly (Python int against "
+               "float), so integer member data that float64 cannot represent is a reported violation (flag member_int_not_a_float64); series built from samples "
+               "that ALL lie outside the time support passed to the constructor (an empty object that keeps a non-empty support) are generated and checked "
+               "against the statement (flag empty_series_keeps_nonempty_support); integer column labels held in an object-dtype Index are generated (flag "
+               "int_labels_in_object_index)",
+               "model comparison (widened cases): the extracted model is asked only about objects whose cells it can hold - integer-valued data and metadata cells "
+               "with |v| <= 2**53, metadata strings of the form s<int>, no bool metadata, labels that are integers in an integer Index / s<int> / digit strings, "
+               "dtypes int64 / float64 / bool; every other object is run through the implementation and the statement oracle only (counted impl_only)"]
 
 NAN = -1000000007
 SCRATCH = os.path.join(C.CACHE, "c11_scratch")
@@ -61,19 +76,39 @@ def _meta_dict(meta):
             out[name] = np.array(vals, dtype=np.float64)
         elif kind == "floatx":                                   # fractional cells and a NaN
             out[name] = np.array([np.nan if i == 0 else v + 0.5 for i, v in enumerate(vals)], dtype=np.float64)
+        elif kind in ("int32", "int16", "int8", "uint8", "uint16", "uint32", "uint64", "float32", "float16"):   # widened: every numeric cell dtype
+            out[name] = np.array([abs(v) if kind[0] == "u" else v for v in vals], dtype=kind)
+        elif kind == "uint64big":                                # cells beyond int64
+            out[name] = np.array([2 ** 63 + abs(v) for v in vals], dtype=np.uint64)
+        elif kind == "bool":
+            out[name] = np.array([v % 2 == 0 for v in vals], dtype=bool)
+        elif kind == "intlist":                                  # a plain Python list of Python ints
+            out[name] = [int(v) for v in vals]
+        elif kind == "floattuple":
+            out[name] = tuple(float(v) + 0.25 for v in vals)
+        elif kind == "strlist":
+            out[name] = ["s%d" % v for v in vals]
+        elif kind == "strU":                                     # numpy unicode array (cells of different lengths)
+            out[name] = np.array(["s%d" % v for v in vals], dtype=str)
+        elif kind == "strtext":                                  # free text: spaces, a non-ASCII letter, a numeric-looking string
+            out[name] = np.array([["left foot", "10", "caf\u00e9", ""][(v + i) % 4] for i, v in enumerate(vals)], dtype=object)
         else:
             out[name] = np.array(["s%d" % v for v in vals], dtype=object)
     return out
 
 
 def _num(v):
-    """a data cell of a spec: a number, or one of the strings "nan", "inf", "-inf" (specs stay strict JSON)"""
-    return float(v) if isinstance(v, str) else v
+    """a data cell of a spec: a number, or one of the strings "nan", "inf", "-inf", or a complex literal "(1+2j)" (specs stay strict JSON)"""
+    if isinstance(v, str):
+        return complex(v) if "j" in v else float(v)
+    return v
 
 
 def build(nap, sp):
     """spec (JSON-able dict) -> pynapple object, through the public constructors only"""
     cls = sp["cls"]
+    if sp.get("form"):
+        return build_form(nap, sp)
     if "d" in sp:
         sp = dict(sp, d=[_num(v) for v in sp["d"]])
     sup = _iset(nap, sp["sup"]) if sp.get("sup") is not None else None
@@ -110,6 +145,374 @@ def build(nap, sp):
             g.set_info(**md)
         return g
     raise ValueError(cls)
+
+
+# ---------------------------------------------------------------------------------------------- the same objects in other ARGUMENT FORMS
+# A spec may carry "form": {...}: the SAME instants / data / labels / metadata handed to the public constructors in another form (container type,
+# dtype of the time array, time units, positional / keyword style, way of attaching metadata), optionally followed by a history ("hist": an operation
+# whose result is the object that gets saved). The spec without "form" is the canonical form of the same logical object.
+UNIT = {"s": 1e9, "ms": 1e6, "us": 1e3}
+_KEEP = []              # live helper objects whose arrays are shared with the built object (kept alive for the duration of the run)
+
+
+def _scaled(ticks, units):
+    return np.asarray(ticks, dtype=np.float64) / UNIT[units] if len(ticks) else np.array([], dtype=np.float64)
+
+
+def _time_arg(nap, ticks, tf, units):
+    """the instants `ticks` as a time argument of form tf -> (argument, time_units)"""
+    import pandas as pd
+    if tf.endswith("_us"):                                   # integer-dtype array of microseconds (signed / unsigned)
+        return np.array([x // 1000 for x in ticks], dtype=tf[:-3]), "us"
+    if tf.endswith("_ms"):
+        return np.array([x // 10 ** 6 for x in ticks], dtype=tf[:-3]), "ms"
+    if tf.endswith("_s"):                                    # integer-dtype array / Python ints of whole seconds
+        whole = [x // 10 ** 9 for x in ticks]
+        return (whole if tf == "pyint_s" else np.array(whole, dtype=tf[:-2])), "s"
+    a = _scaled(ticks, units)
+    if tf == "list":
+        return a.tolist(), units
+    if tf == "tuple":
+        return tuple(a.tolist()), units
+    if tf == "series":
+        return pd.Series(a), units
+    if tf == "pdindex":
+        return pd.Index(a, dtype=np.float64), units
+    if tf in ("tsindex", "t_attr"):                          # another live object's TsIndex / its .t array (memory shared with that object)
+        other = nap.Ts(a, time_units=units)
+        _KEEP.append(other)
+        return (other.index if tf == "tsindex" else other.t), "s"
+    if tf == "view":                                         # non-contiguous view into a larger array
+        big = np.repeat(a, 2)
+        _KEEP.append(big)
+        return big[::2], units
+    if tf == "readonly":
+        a = a.copy()
+        a.flags.writeable = False
+        return a, units
+    if tf == "scalar_float":
+        return float(a[0]), units
+    if tf == "scalar_np":
+        return np.float64(a[0]), units
+    if tf == "scalar_int":                                   # a Python int instead of a float (whole units)
+        return int(round(a[0])), units
+    if tf == "scalar_npint":
+        return np.int64(round(a[0])), units
+    return a, units
+
+
+def _iset_arg(nap, iv, sf, metadata=None):
+    """the intervals iv (ticks) as an IntervalSet built from the argument form sf"""
+    import pandas as pd
+    s, e = [a for a, _ in iv], [b for _, b in iv]
+    md = {} if metadata is None else {"metadata": metadata}
+    if sf in ("ms", "us"):
+        return nap.IntervalSet(_scaled(s, sf), _scaled(e, sf), time_units=sf, **md)
+    if sf == "positional_units":
+        return nap.IntervalSet(_scaled(s, "ms"), _scaled(e, "ms"), "ms", metadata)
+    if sf.endswith("_us") or sf.endswith("_s") or sf.endswith("_ms"):
+        (sa, u), (ea, _) = _time_arg(nap, s, sf, "s"), _time_arg(nap, e, sf, "s")
+        return nap.IntervalSet(sa, ea, time_units=u, **md)
+    if sf in ("list", "tuple", "series", "pdindex", "view", "readonly", "scalar_float", "scalar_np", "scalar_int", "scalar_npint"):
+        return nap.IntervalSet(_time_arg(nap, s, sf, "s")[0], _time_arg(nap, e, sf, "s")[0], **md)
+    if sf == "mixed":                                        # a list of starts and an array of ends
+        return nap.IntervalSet(_arr(s).tolist(), _arr(e), **md)
+    if sf == "kw":
+        return nap.IntervalSet(start=_arr(s), end=_arr(e), time_units="s", **md)
+    if sf == "array2d":
+        return nap.IntervalSet(np.stack([_arr(s), _arr(e)], axis=1), **md)
+    if sf == "dataframe":                                    # the other columns of the DataFrame are the metadata (documented)
+        df = pd.DataFrame({"start": _arr(s), "end": _arr(e)})
+        if metadata is not None:
+            for k in (metadata.columns if isinstance(metadata, pd.DataFrame) else metadata):
+                df[k] = np.asarray(metadata[k])
+        return nap.IntervalSet(df)
+    if sf == "iset_of_iset":                                 # an IntervalSet as start: its intervals are taken (not its metadata)
+        return nap.IntervalSet(nap.IntervalSet(_arr(s), _arr(e)), **md)
+    if sf == "unsorted_overlapping":                         # starts / ends given so that the constructor has to sort and merge them into iv
+        return nap.IntervalSet(_arr(s[::-1]), _arr(e[::-1]), **md)
+    if sf == "support_of_series":                            # the time_support attribute of a live series
+        other = nap.Ts(_arr(sorted(set(s + e))), time_support=nap.IntervalSet(_arr(s), _arr(e)))
+        _KEEP.append(other)
+        return other.time_support
+    return nap.IntervalSet(_arr(s), _arr(e), **md)
+
+
+def _data_arg(d, df):
+    """the data array d in the container form df -> (argument, extra constructor keywords)"""
+    if df == "list":
+        return d.tolist(), {}
+    if df == "fortran":
+        return np.asfortranarray(d), {}
+    if df == "view":                                         # non-contiguous view into a larger array (shares memory with it)
+        big = np.repeat(d, 2, axis=0)
+        _KEEP.append(big)
+        return big[::2], {}
+    if df == "readonly":
+        d = d.copy()
+        d.flags.writeable = False
+        return d, {}
+    if df == "memmap_lazy":                                  # an array-like that is not loaded at construction (load_array=False)
+        mm = np.memmap(tempfile.TemporaryFile(), dtype=d.dtype, mode="w+", shape=d.shape)
+        mm[...] = d
+        _KEEP.append(mm)
+        return mm, {"load_array": False}
+    return d, {}
+
+
+def _cols_arg(cols, cf):
+    import pandas as pd
+    if cols is None or cf in (None, "list"):
+        return cols
+    if cf == "tuple":
+        return tuple(cols)
+    if cf == "ndarray":
+        return np.array(cols)
+    if cf in ("int32", "int16", "uint8", "uint64"):
+        return np.array(cols, dtype=cf)
+    if cf == "pdindex":
+        return pd.Index(cols)
+    if cf == "object_index":                                 # the labels held in an object-dtype Index (what selecting columns of a mixed-label frame gives)
+        return pd.Index(cols, dtype=object)
+    raise ValueError(cf)
+
+
+def _attach_meta(nap, x, md, how):
+    """attach the metadata dict md to the built object x in the way `how` (the ways set_info documents)"""
+    import pandas as pd
+    if not md:
+        return x
+    if how == "set_info_kwargs":
+        x.set_info(**md)
+    elif how == "set_info_dict":
+        x.set_info(md)
+    elif how == "set_info_dataframe":
+        x.set_info(pd.DataFrame({k: np.asarray(v) for k, v in md.items()}, index=x._metadata.index))
+    elif how == "set_info_series":
+        x.set_info(**{k: pd.Series(np.asarray(v), index=x._metadata.index) for k, v in md.items()})
+    elif how == "setitem":
+        for k, v in md.items():
+            x[k] = v
+    elif how == "attr":
+        for k, v in md.items():
+            setattr(x, k, v)
+    else:
+        raise ValueError(how)
+    return x
+
+
+CTOR_META = ("ctor", "ctor_dataframe")
+
+
+def _ctor_meta(md, how, index):
+    import pandas as pd
+    if not md or how not in CTOR_META:
+        return None
+    return md if how == "ctor" else pd.DataFrame({k: np.asarray(v) for k, v in md.items()}, index=index)
+
+
+def _call(cls, style, t, d, units, sup, extra):
+    """cls(...) with the arguments all positional, all keyword, or in the usual mix (t, d positional, the rest by keyword at non-default values only)"""
+    if style == "kw":
+        kw = dict(t=t, time_units=units, time_support=sup, **extra)
+        if d is not None:
+            kw["d"] = d
+        return cls(**kw)
+    if style == "pos" and not extra:
+        return cls(t, units, sup) if d is None else cls(t, d, units, sup)
+    kw = dict(extra)
+    if units != "s":
+        kw["time_units"] = units
+    if style == "explicit_defaults":                         # optional parameters given at their documented defaults
+        kw.setdefault("time_units", "s")
+        if d is not None:
+            kw.setdefault("load_array", True)
+    return cls(t, time_support=sup, **kw) if d is None else cls(t, d, time_support=sup, **kw)
+
+
+def build_form(nap, sp):
+    import pandas as pd
+    f = sp["form"]
+    x = _build_form(nap, sp, f, pd)
+    for h in f.get("hist") or []:
+        x = _history(nap, x, h, sp)
+    return x
+
+
+def _build_form(nap, sp, f, pd):
+    cls = sp["cls"]
+    units, tf, style = f.get("units", "s"), f.get("t", "ndarray"), f.get("style", "mix")
+    mhow = f.get("meta", "ctor")
+    if cls == "IntervalSet":
+        md = _meta_dict(sp.get("meta"))
+        x = _iset_arg(nap, sp["iv"], f.get("iv", "arrays"), metadata=_ctor_meta(md, mhow, pd.RangeIndex(len(sp["iv"]))))
+        return x if mhow in CTOR_META else _attach_meta(nap, x, md, mhow)
+    sup = _iset_arg(nap, sp["sup"], f.get("sup", "arrays")) if sp.get("sup") is not None else None
+    if cls == "TsGroup":
+        mdt = f.get("member_dtype", "float64")
+        mform = f.get("members", "objects")
+        data = {}
+        for key, kind, t, d in sp["members"]:
+            ta, u = _time_arg(nap, t, tf, units)
+            kf = f.get("keys", "int")
+            key = {"int": lambda k: k, "npint64": np.int64, "npint32": np.int32, "str": str, "float": float}[kf](key)
+            if mform == "arrays":                            # raw time arrays instead of Ts objects (the group builds the Ts, with the group's time_units)
+                data[key] = ta
+            elif kind == "Ts":
+                data[key] = _call(nap.Ts, style, ta, None, u, sup if f.get("member_sup", True) else None, {})
+            else:
+                data[key] = _call(nap.Tsd, style, ta, np.array([_num(v) for v in d], dtype=mdt), u, sup if f.get("member_sup", True) else None, {})
+        arg = list(data.values()) if f.get("container") == "list" else data
+        md = _meta_dict(sp.get("meta"))
+        kw = {}
+        if mform == "arrays" and units != "s":
+            kw["time_units"] = units
+        if f.get("bypass_check"):
+            kw["bypass_check"] = True
+        if md and mhow == "ctor":
+            kw["metadata"] = md
+        elif md and mhow == "ctor_dataframe":
+            kw["metadata"] = pd.DataFrame({k: np.asarray(v) for k, v in md.items()}, index=sorted(int(float(k)) for k in data))
+        elif md and mhow == "ctor_kwargs":
+            kw.update(md)
+        if style == "pos":
+            g = nap.TsGroup(arg, sup, kw.pop("time_units", "s"), kw.pop("bypass_check", False), kw.pop("metadata", None), **kw)
+        elif style == "kw":
+            g = nap.TsGroup(data=arg, time_support=sup, **kw)
+        else:
+            g = nap.TsGroup(arg, time_support=sup, **kw)
+        return g if (not md or mhow in CTOR_META + ("ctor_kwargs",)) else _attach_meta(nap, g, md, mhow)
+    ta, u = _time_arg(nap, sp["t"], tf, units)
+    if cls == "Ts":
+        return _call(nap.Ts, style, ta, None, u, sup, {})
+    d = np.array([_num(v) for v in sp["d"]], dtype=sp["dtype"])
+    if cls == "Tsd":
+        if f.get("d") == "series":                           # a pandas Series: index = times, values = data
+            return nap.Tsd(pd.Series(d, index=_scaled(sp["t"], units)), time_units=units, time_support=sup)
+        da, extra = _data_arg(d, f.get("d", "ndarray"))
+        return _call(nap.Tsd, style, ta, da, u, sup, extra)
+    if cls == "TsdTensor":
+        da, extra = _data_arg(d.reshape((len(sp["t"]),) + tuple(sp["shape"])), f.get("d", "ndarray"))
+        return _call(nap.TsdTensor, style, ta, da, u, sup, extra)
+    if cls == "TsdFrame":
+        d = d.reshape((len(sp["t"]), sp["ncols"]))
+        md = _meta_dict(sp.get("meta"))
+        cols = _cols_arg(sp.get("cols"), f.get("cols"))
+        labels = cols if cols is not None else np.arange(sp["ncols"])
+        extra = {}
+        if md and mhow in CTOR_META:
+            extra["metadata"] = _ctor_meta(md, mhow, pd.Index(labels))
+        if f.get("d") == "dataframe":                        # a pandas DataFrame: index = times, columns = labels
+            df = pd.DataFrame(d, index=_scaled(sp["t"], units), columns=labels)
+            x = nap.TsdFrame(df, time_units=units, time_support=sup, **extra)
+        else:
+            if cols is not None:
+                extra["columns"] = cols
+            da, ex2 = _data_arg(d, f.get("d", "ndarray"))
+            if style == "pos":
+                x = nap.TsdFrame(ta, da, u, sup, extra.get("columns"), ex2.get("load_array", True), extra.get("metadata"))
+            else:
+                x = _call(nap.TsdFrame, style, ta, da, u, sup, dict(extra, **ex2))
+        return x if mhow in CTOR_META else _attach_meta(nap, x, md, mhow)
+    raise ValueError(cls)
+
+
+def _history(nap, x, h, sp):
+    """one more step before the save: the object that is saved is the RESULT of a public operation on the built object"""
+    if h == "reload":                                        # save + load_file: the saved object is itself a loaded one
+        os.makedirs(SCRATCH, exist_ok=True)
+        d = tempfile.mkdtemp(dir=SCRATCH)
+        try:
+            x.save(os.path.join(d, "first.npz"))
+            return nap.load_file(os.path.join(d, "first.npz"))
+        finally:
+            shutil.rmtree(d, ignore_errors=True)
+    if h == "copy":
+        import copy
+        return copy.deepcopy(x)
+    if isinstance(x, nap.IntervalSet):
+        n = len(x)
+        if h == "slice":
+            return x[1:] if n > 1 else x[0:]
+        if h == "fancy":
+            return x[[n - 1, 0]] if n > 1 else x[[0]]
+        if h == "mask":
+            return x[np.arange(n) % 2 == 0]
+        if h == "intersect":
+            return x.intersect(nap.IntervalSet(x.start[0] + 1e-6, x.end[-1] - 1e-6)) if n else x
+        if h == "set_diff":
+            return x.set_diff(nap.IntervalSet(x.start[0] + 1e-6, x.start[0] + 2e-6)) if n else x
+        if h == "union":
+            return x.union(nap.IntervalSet(x.end[-1] + 1.0, x.end[-1] + 2.0)) if n else x
+        if h == "drop_short":
+            return x.drop_short_intervals(1.5e-6)
+        if h == "merge_close":
+            return x.merge_close_intervals(1e-6)
+        if h == "split":
+            return x.split(2e-6)
+        raise ValueError(h)
+    if isinstance(x, nap.TsGroup):
+        keys = list(x.keys())
+        if h == "subset":
+            return x[keys[::-1][:max(1, len(keys) - 1)]] if keys else x
+        if h == "mask":
+            return x[np.arange(len(keys)) % 2 == 0] if keys else x
+        if h == "restrict":
+            ep = x.time_support
+            return x.restrict(nap.IntervalSet(ep.start[0] + 1e-6, ep.end[-1] - 1e-6))
+        if h == "merge":
+            off = (max(keys) + 3) if keys else 0
+            other = nap.TsGroup({off: nap.Ts(np.array([x.time_support.start[0]]), time_support=x.time_support)} if not any(isinstance(x[k], nap.Tsd) for k in keys)
+                                else {off: nap.Tsd(np.array([x.time_support.start[0]]), np.array([7.0]), time_support=x.time_support)},
+                                time_support=x.time_support)
+            return nap.TsGroup.merge_group(x, other, ignore_metadata=True)
+        raise ValueError(h)
+    n = len(x)
+    if h == "slice":
+        return x[1:n - 1] if n > 2 else x[0:n]
+    if h == "step":
+        return x[::2]
+    if h == "fancy":                                         # non-monotone integer indexing
+        return x[[i for i in (n - 1, 0, n // 2) if i < n]] if n else x[[]]
+    if h == "mask":
+        return x[np.arange(n) % 2 == 0]
+    if h == "get":
+        return x.get(x.t[0], x.t[-1]) if n else x
+    if h == "restrict":
+        ep = x.time_support
+        return x.restrict(nap.IntervalSet(ep.start[0] + 1e-6, ep.end[-1] - 1e-6)) if len(ep) else x
+    if h == "restrict_same":
+        return x.restrict(x.time_support)
+    if h == "arith":
+        return x * 2 + 1
+    if h == "neg":
+        return -x
+    if h == "npabs":
+        return np.abs(x)
+    if h == "npsqrt":                                        # NaN for the negative cells
+        return np.sqrt(x)
+    if h == "compare":                                       # boolean result
+        return x > 0
+    if h == "colsel":                                        # TsdFrame: columns picked in another order by position
+        k = x.shape[1]
+        return x[:, [k - 1, 0]] if k > 1 else x[:, [0]]
+    if h == "loc":                                           # TsdFrame: columns picked in another order by label
+        c = list(dict.fromkeys(x.columns))
+        return x.loc[c[::-1][:max(1, len(c) - 1)]]
+    if h == "column":                                        # TsdFrame -> Tsd / TsdTensor -> lower rank
+        return x[:, 0]
+    if h == "dropna":
+        return x.dropna()
+    if h == "bin_average":
+        return x.bin_average(1e-5)
+    if h == "to_tsgroup":
+        return x.to_tsgroup()
+    if h == "as_frame_int_labels_of_mixed":                  # integer labels selected out of a frame with mixed labels: they sit in an object-dtype Index
+        k = x.shape[1]
+        mixed = nap.TsdFrame(x.t, np.concatenate([x.values, x.values[:, :1]], axis=1), time_support=x.time_support,
+                             columns=list(x.columns) + ["extra"])
+        return mixed[:, list(range(k))]
+    raise ValueError(h)
 
 
 # ---------------------------------------------------------------------------------------------- canonical description (= driver_c11's)
@@ -183,16 +586,28 @@ def representable(nap, x):
         a = np.asarray(a, dtype=np.float64).ravel()
         if nan_ok:
             a = a[~np.isnan(a)]
-        return bool(np.all(np.isfinite(a)) and np.all(a == np.round(a)))
+        return bool(np.all(np.isfinite(a)) and np.all(a == np.round(a)) and np.all(np.abs(a) <= 2.0 ** 53))     # the driver's cells are OCaml ints
     md = getattr(x, "_metadata", None)
     if md is not None:
         for c in md.columns:
             if c != "rate" and md[c].dtype.kind == "f" and not integral(md[c].values):
                 return False
+            # (widening) the model's metadata cells are integers, integer-valued floats and strings "s<int>"; its names are m<int>: bool cells, free
+            # text, integers beyond 2**53 are run through the implementation and the statement oracle only
+            if c != "rate" and (md[c].dtype.kind == "b" or (md[c].dtype.kind in "iu" and not integral(md[c].values.astype(np.float64)))
+                                or any(isinstance(v, str) and _enc_str(v)[0] != 1 for v in md[c].values)
+                                or any(isinstance(v, (bool, np.bool_)) for v in md[c].values)):
+                return False
+    if isinstance(x, nap.TsdFrame) and any(_enc_label(l)[0] in (3, 9) for l in x.columns):
+        return False                        # labels the model knows: integers, "s<int>", digit strings
+    if isinstance(x, nap.TsdFrame) and x.shape[1] > 0 and x.columns.dtype == np.dtype("O") and all(_enc_label(l)[0] == 0 for l in x.columns):
+        return False                        # the model's integer labels live in an integer Index (an object-dtype Index of integers: implementation + oracle only)
     if isinstance(x, nap.TsGroup):
         return all(integral(x[k].values, nan_ok=True) for k in x.keys() if hasattr(x[k], "values"))
     if isinstance(x, nap.IntervalSet) or not hasattr(x, "values"):
         return True
+    if np.asarray(x.values).dtype.kind == "c":
+        return False
     return integral(x.values)
 
 
@@ -253,6 +668,7 @@ def _meta_equal(a, b):
     for c in a.columns:
         ka, kb = a[c].dtype.kind, b[c].dtype.kind
         ka, kb = ("s" if ka in "OUT" else ka), ("s" if kb in "OUT" else kb)
+        ka, kb = ("i" if ka == "u" else ka), ("i" if kb == "u" else kb)      # integer (signed or unsigned) / float / string / bool
         if ka != kb and len(a[c]):      # a column without cells has no cell dtype to preserve (pandas gives it a default one)
             return "metadata column %r dtype %s != %s" % (c, a[c].dtype, b[c].dtype)
         va, vb = list(a[c].values), list(b[c].values)
@@ -270,6 +686,11 @@ def _same_values(a, b):
         return False
     if a.dtype.kind in "fc" and b.dtype.kind in "fc":
         return bool(np.array_equal(a, b, equal_nan=True))
+    if a.dtype != b.dtype and a.dtype.kind in "iuf" and b.dtype.kind in "iuf" and any(z.dtype.kind in "iu" and z.dtype.itemsize == 8 for z in (a, b)):
+        # integer cells against float cells (a group member's data comes back float64), int64 against uint64: NumPy would compare after a
+        # lossy cast to float64; Python compares an int with a float (and ints with ints) exactly
+        la, lb = a.ravel().tolist(), b.ravel().tolist()
+        return all(u == v or (u != u and v != v) for u, v in zip(la, lb))
     return bool(np.array_equal(a, b))
 
 
@@ -310,8 +731,11 @@ def _oracle(nap, x, y):
                 # groups of tied samples only (same multiset of (time, value) pairs); anything else is another defect
                 ties = len(set(a.t.tolist())) < len(a.t)
                 perm = a.values.shape == b.values.shape and _pairs(a) == _pairs(b)
+                # (widening) integer member data: the ONLY difference is that every cell came back as the nearest float64
+                av, bv = np.asarray(a.values), np.asarray(b.values)
+                rounded = av.dtype.kind in "iu" and av.shape == bv.shape and bool(np.array_equal(av.astype(np.float64), bv.astype(np.float64)))
                 bad.append(("member_data", "member %r: %r != %r" % (k, b.values.tolist(), a.values.tolist()),
-                            {"dup_times_in_member": bool(ties), "permuted_ties_only": bool(perm)}))
+                            {"dup_times_in_member": bool(ties), "permuted_ties_only": bool(perm), "integers_rounded_to_float64_only": bool(rounded)}))
         m = _meta_equal(x._metadata, y._metadata)
         if m:
             bad.append(("metadata", m))
@@ -571,22 +995,383 @@ def random_specs(rng, n, big):
     return out
 
 
+# ---------------------------------------------------------------------------------------------- widened generators: argument forms
+TIMES2 = {       # in units of US ticks (1 us), except the *_ns entries (ticks)
+    "negative": [-33, -20, -3, -1],
+    "straddle0": [-3, -1, 0, 2, 3],
+    "whole_seconds": [0, 10 ** 6, 3 * 10 ** 6, 4 * 10 ** 6, 9 * 10 ** 6],
+    "neg_whole_seconds": [-2 * 10 ** 6, -10 ** 6, 0, 10 ** 6],
+    "offset_1e5s": [10 ** 11 + k for k in (0, 1, 2, 10, 40)],
+    "multi": TIMES["multi"],
+    "dups": TIMES["dups"],
+    "one": [5],
+    "one_whole_second": [2 * 10 ** 6],
+    "one_negative": [-5],
+    "empty": [],
+    "offset_1e5s_ns": [10 ** 14 + k for k in (1, 2, 1001, 1002, 2003)],
+    "negative_ns": [-2003, -1002, -1001, -2, -1],
+}
+T_FORMS = ["ndarray", "list", "tuple", "series", "pdindex", "tsindex", "t_attr", "view", "readonly", "int64_us", "int32_us", "uint64_us", "uint32_us", "uint8_us",
+           "int64_ms", "uint16_ms", "int64_s", "int16_s", "uint64_s", "pyint_s", "scalar_float", "scalar_np", "scalar_int", "scalar_npint"]
+SUP_FORMS = ["arrays", "list", "tuple", "series", "pdindex", "ms", "us", "positional_units", "int64_us", "uint64_us", "kw", "array2d", "dataframe", "iset_of_iset",
+             "unsorted_overlapping", "mixed", "support_of_series", "view", "readonly"]
+STYLES = ["mix", "kw", "pos", "explicit_defaults"]
+DTYPES = ["float32", "float16", "int32", "int16", "int8", "uint8", "uint16", "uint32", "uint64", "bool", "complex128", "complex64", "int64", "float64"]
+META_KINDS = ["int", "float", "str", "floatx", "int32", "int16", "int8", "uint8", "uint16", "uint32", "uint64", "uint64big", "float32", "bool", "intlist",
+              "floattuple", "strlist", "strU", "strtext"]
+META_HOW = ["ctor", "ctor_dataframe", "set_info_kwargs", "set_info_dict", "set_info_dataframe", "set_info_series", "setitem", "attr"]
+NEW_VIAS = ["load_file_kw_path", "load_file_lazy_true", "load_file_lazy_false_kw", "relative_path", "load_folder_subfolder", "folder_load_all",
+            "folder_dotted_name", "saved_twice", "reload_and_save_again", "same_file_twice", "over_a_file_of_another_class"]
+
+
+def _ticks_of(tn):
+    return list(TIMES2[tn]) if tn.endswith("_ns") else [v * US for v in TIMES2[tn]]
+
+
+def _admissible(tf, units, t):
+    """can the instants t (ticks) be written exactly in the time form tf / units?"""
+    if tf.startswith("scalar"):
+        if len(t) != 1:
+            return False
+        return tf in ("scalar_float", "scalar_np") or t[0] % int(UNIT[units]) == 0
+    grain = {"_us": 1000, "_ms": 10 ** 6}.get(tf[-3:], 10 ** 9 if tf.endswith("_s") else None)
+    if grain is None:
+        return units == "s" or all(v % 1000 == 0 for v in t)     # ms / us floats: instants on the microsecond lattice only (exact after rounding)
+    if any(v % grain for v in t):
+        return False
+    vals = [v // grain for v in t]
+    if tf == "pyint_s":
+        return True
+    info = np.iinfo(np.dtype(tf.rsplit("_", 1)[0]))
+    return all(info.min <= v <= info.max for v in vals)
+
+
+def _sup_modes(t):
+    if not t:
+        return [("explicit", [[0, 40 * US]]), ("default", None)]
+    out = [("hull", [[t[0] - 2 * US, t[-1] + 2 * US]])]
+    ds = sorted(set(t))
+    if len(ds) >= 2:
+        out.append(("default", None))
+    if len(ds) >= 4:
+        out.append(("on_samples", [[ds[0], ds[1]], [ds[2], ds[-1]]]))       # every interval end carries a sample
+    return out
+
+
+def _sup_admissible(sf, sup):
+    if sup is None:
+        return sf == "arrays"
+    pts = [v for iv in sup for v in iv]
+    if sf in ("ms", "us", "positional_units"):
+        return all(v % 1000 == 0 for v in pts)
+    if sf.endswith("_us"):
+        return _admissible(sf, "s", pts)
+    return True
+
+
+def _pick(rng, vals, ok):
+    c = [v for v in vals if ok(v)]
+    return rng.choice(c) if c else None
+
+
+def _mix(rng, axes, n):
+    """n combinations over the axes in which every value of every axis occurs (round robin over independently shuffled axes): all values
+    always, the pairs at random (different pairs for different seeds)"""
+    cols = {}
+    for name, vals in axes.items():
+        vals = list(vals)
+        seq = []
+        while len(seq) < n:
+            rng.shuffle(vals)
+            seq += vals
+        cols[name] = seq[:n]
+    return [{name: cols[name][i] for name in axes} for i in range(n)]
+
+
+def _data_for(dt, n, pattern):
+    """n cells valid for the dtype dt (JSON-able: NaN / inf / complex cells are strings)"""
+    k = np.dtype(dt).kind
+    if pattern == "zeros":
+        return [0] * n
+    if pattern == "all_equal":
+        return [1 if k == "b" else 3] * n
+    if k == "b":
+        return [(i * 7 + 3) % 11 % 2 for i in range(n)]
+    if k in "iu":
+        info = np.iinfo(dt)
+        if pattern == "extremes":
+            cyc = [int(info.min), int(info.max), 0, int(info.max) - 1, int(info.min) + 1]
+            return [cyc[i % 5] for i in range(n)]
+        return [((i * 7 + 3) % 11 - 4) if k == "i" else (i * 7 + 3) % 11 for i in range(n)]
+    if k == "c":
+        cyc = ["(1+2j)", "(-0.5-1j)", "0j", "(3+0j)", "(nan+1j)"] if pattern == "extremes" else ["(1+2j)", "(2-1j)", "(-3+0.5j)"]
+        return [cyc[i % len(cyc)] for i in range(n)]
+    if pattern == "extremes":
+        fi = np.finfo(dt)
+        cyc = [float(fi.max), -float(fi.max), float(fi.tiny), "nan", "inf", "-inf", -0.0, float(fi.eps)]
+        return [cyc[i % len(cyc)] for i in range(n)]
+    return [(i * 3 + 2) % 17 * 0.5 - 4 for i in range(n)]
+
+
+def _meta_cols(rng, kinds, n):
+    return [["m%d" % j, kind, [rng.randrange(-5, 50) for _ in range(n)]] for j, kind in enumerate(kinds)]
+
+
+def _series_spec(cls, t, sup, dt, pattern, rng, cols="rot", kinds=()):
+    if cls == "Ts":
+        return {"cls": "Ts", "t": t, "sup": sup}
+    if cls == "Tsd":
+        return {"cls": "Tsd", "t": t, "d": _data_for(dt, len(t), pattern), "dtype": dt, "sup": sup}
+    if cls == "TsdTensor":
+        shape = rng.choice([[2, 2], [1, 3, 2], [2, 1], [1, 1]])
+        return {"cls": "TsdTensor", "t": t, "d": _data_for(dt, len(t) * int(np.prod(shape)), pattern), "shape": shape, "dtype": dt, "sup": sup}
+    if cols == "rot":
+        cols = rng.choice([None, [5, 3, 9], ["s1", "s0", "s7"], [10, 2, 33], ["s10", "s2", "s33"]])
+    nc = 3 if cols is None else len(cols)
+    return {"cls": "TsdFrame", "t": t, "d": _data_for(dt, len(t) * nc, pattern), "ncols": nc, "dtype": dt, "cols": cols, "sup": sup,
+            "meta": _meta_cols(rng, kinds, nc)}
+
+
+def _with_form(sp, var, form, fam):
+    form = {k: v for k, v in form.items() if v is not None}
+    return dict(sp, form=form), dict(var, family=fam, **{"form_" + k: (",".join(v) if isinstance(v, list) else v) for k, v in form.items()})
+
+
+def form_specs(rng, tier):
+    """(spec, variant, vias) triples of the widened input classes; quick tier: every value of every axis at least once per family (round robin,
+    pairs by the seeded rng); thorough tier: many more combinations of the same axes"""
+    big = tier != "quick"
+    out = []
+
+    def vias(i):
+        extra = NEW_VIAS[(i + rng.randrange(len(NEW_VIAS))) % len(NEW_VIAS)]
+        # quick tier: save -> load_file for every case, one of the other routes (rotating) on every second case; thorough: load_file, Folder, a rotating route
+        return ("load_file", "folder", extra) if big else (("load_file", extra) if i % 2 == 0 else ("load_file",))
+
+    # --- F1: the time argument of the four series classes: container / dtype / units / call style x the form of the time support
+    for i, c in enumerate(_mix(rng, {"cls": ["Ts", "Tsd", "TsdFrame", "TsdTensor"], "t": T_FORMS, "units": ["s", "ms", "us"], "style": STYLES,
+                                     "supform": SUP_FORMS, "dtype": ["float64", "int64"]}, 1500 if big else 96)):
+        if c["t"] == "series" and c["cls"] in ("Ts", "Tsd"):
+            # for Ts / Tsd a pandas Series passed as t is documented to mean "index = times, values = data": Tsd gets the form d="series", Ts a pandas Index
+            c["t"] = "pdindex"
+        tn = _pick(rng, list(TIMES2), lambda n: _admissible(c["t"], c["units"], _ticks_of(n)))
+        for u in ("us", "ms", "s"):
+            if tn is None:
+                c["units"] = u
+                tn = _pick(rng, list(TIMES2), lambda n: _admissible(c["t"], u, _ticks_of(n)))
+        t = _ticks_of(tn)
+        sm, sup = rng.choice(_sup_modes(t))
+        sf = c["supform"] if _sup_admissible(c["supform"], sup) else "arrays"
+        if sf in ("array2d", "dataframe", "unsorted_overlapping", "support_of_series") and sup is not None and len(sup) == 0:
+            sf = "arrays"
+        sp = _series_spec(c["cls"], t, sup, c["dtype"], "ramp", rng, kinds=rng.choice([(), ("int", "str")]))
+        fm = {"t": c["t"], "units": c["units"], "style": c["style"], "sup": None if sup is None else sf}
+        if c["cls"] == "Tsd" and c["t"] == "pdindex" and i % 2 == 0:
+            fm = {"d": "series", "units": c["units"], "sup": fm["sup"]}
+        out.append(_with_form(sp, {"times": tn, "sup": sm}, fm, "time_forms") + (vias(i),))
+    # --- F2: dtype of the data, complete over class x dtype x pattern; container of the data by round robin
+    combos = list(itertools.product(["Tsd", "TsdFrame", "TsdTensor"], DTYPES, ["ramp", "extremes", "zeros", "all_equal"]))
+    rot = _mix(rng, {"d": ["ndarray", "list", "fortran", "view", "readonly", "memmap_lazy"], "style": STYLES,
+                     "times": ["multi", "dups", "negative", "straddle0", "offset_1e5s", "one", "empty", "whole_seconds"]}, len(combos))
+    reps = 3 if big else 1
+    for rep in range(reps):
+        for i, ((cls, dt, pat), r) in enumerate(zip(combos, rot)):
+            if rep:
+                r = rng.choice(rot)
+            t = _ticks_of(r["times"])
+            sm, sup = rng.choice(_sup_modes(t))
+            df = r["d"]
+            if (df == "list" and (dt not in ("int64", "float64", "bool") or not t)) or (df == "fortran" and cls == "Tsd") or (df == "memmap_lazy" and not t):
+                df = "ndarray"
+            sp = _series_spec(cls, t, sup, dt, pat, rng, kinds=rng.choice([(), ("float", "str")]))
+            out.append(_with_form(sp, {"times": r["times"], "sup": sm, "dtype": dt, "data": pat, "rep": rep}, {"d": df, "style": r["style"] if df != "memmap_lazy" else "mix"},
+                                  "data_dtypes") + (vias(i),))
+    # --- F3: TsdFrame column labels x metadata: label container / dtype, metadata cell dtype, the way the metadata is attached
+    labelsets = {"int": [[5, 3, 9], [10, 2, 33], [0, 1, 2], [-1, 200, 7]], "str": [["s1", "s0", "s7"], ["s10", "s2", "s33"], ["left foot", "10", "café"]]}
+    for i, c in enumerate(_mix(rng, {"labels": ["int", "str", "int", "default"], "cols": ["list", "tuple", "ndarray", "int32", "int16", "uint8", "uint64", "pdindex", "object_index"],
+                                     "kind": META_KINDS, "kind2": META_KINDS, "how": META_HOW, "d": ["ndarray", "dataframe", "ndarray"], "dtype": ["float64", "int64", "float32", "uint8"],
+                                     "units": ["s", "ms", "us"]}, 700 if big else 72)):
+        cols = None if c["labels"] == "default" else rng.choice(labelsets[c["labels"]])
+        cf = c["cols"]
+        if cols is None or (c["labels"] == "str" and cf in ("int32", "int16", "uint8", "uint64")):
+            cf = "list" if cols is None else "ndarray"
+        if cols is not None and cf in ("uint8", "uint64") and min(cols) < 0:
+            cols = [5, 3, 9]
+        tn = rng.choice(["multi", "dups", "negative", "empty", "one"])
+        t = _ticks_of(tn)
+        sm, sup = rng.choice(_sup_modes(t))
+        kinds = (c["kind"],) if c["kind"] == c["kind2"] else (c["kind"], c["kind2"])
+        sp = _series_spec("TsdFrame", t, sup, c["dtype"], "ramp", rng, cols=cols, kinds=kinds)
+        how = c["how"]
+        out.append(_with_form(sp, {"times": tn, "sup": sm, "labels": c["labels"], "meta": "+".join(kinds), "dtype": c["dtype"]},
+                              {"cols": None if cols is None else cf, "meta": how, "d": c["d"] if c["d"] != "ndarray" else None, "units": c["units"]}, "frame_labels_metadata")
+                   + (vias(i),))
+    # --- F4: IntervalSet: the form of start / end, units, metadata
+    ivsets = {"none": [], "one": [[0, 10]], "three": [[0, 10], [20, 40], [50, 51]], "negative": [[-7, -3], [-2, -1]], "straddle0": [[-7, 3], [5, 6]],
+              "whole_seconds": [[0, 10 ** 6], [2 * 10 ** 6, 5 * 10 ** 6]], "one_whole_seconds": [[10 ** 6, 3 * 10 ** 6]], "one_straddling0_whole_seconds": [[-2 * 10 ** 6, 10 ** 6]],
+              "offset_1e5s": [[10 ** 11, 10 ** 11 + 1], [10 ** 11 + 5, 10 ** 11 + 40]]}
+    IV_FORMS = [f for f in SUP_FORMS if f not in ("unsorted_overlapping", "support_of_series")] + ["uint8_us", "int64_s", "pyint_s", "int64_ms", "scalar_float", "scalar_np",
+                                                                                                  "scalar_int", "scalar_npint"]
+    for i, c in enumerate(_mix(rng, {"iv": IV_FORMS, "kind": META_KINDS + ["none", "none"], "how": META_HOW}, 500 if big else 60)):
+        def ok(n):
+            iv = [[a * US, b * US] for a, b in ivsets[n]]
+            pts = [v for p in iv for v in p]
+            f = c["iv"]
+            if f.startswith("scalar"):
+                return len(iv) == 1 and _admissible(f, "s", pts[:1]) and _admissible(f, "s", pts[1:])
+            if not iv:
+                return f in ("arrays", "list", "tuple", "kw", "ms", "us", "series")
+            if f[-3:] in ("_us", "_ms") or f.endswith("_s"):
+                return _admissible(f, "s", pts)
+            return True
+        n = _pick(rng, list(ivsets), ok)
+        iv = [[a * US, b * US] for a, b in ivsets[n]]
+        kinds = () if c["kind"] == "none" else (c["kind"],)
+        sp = {"cls": "IntervalSet", "iv": iv, "meta": _meta_cols(rng, kinds, len(iv))}
+        out.append(_with_form(sp, {"intervals": n, "meta": "+".join(kinds) or "none"}, {"iv": c["iv"], "meta": c["how"] if kinds else None}, "intervalset_forms") + (vias(i),))
+    # --- F5: TsGroup: keys, container, members, units, bypass_check, metadata
+    keysets = {"contiguous": [0, 1, 2], "unsorted_noncontiguous": [30, 2, 7], "negative": [5, -3], "multi_digit": [100, 12, 7, 1000], "large": [10 ** 10, 4], "single": [4]}     # large: beyond int32
+    pats = {"all_nonempty": [[0, 3, 10], [3, 20, 40], [1, 33]], "one_empty_member": [[0, 3, 10], [], [1, 33]], "interleaved_shared_times": [[0, 20, 40], [0, 20, 40], [10, 20]],
+            "negative_times": [[-33, -3, 0], [-20, 2], [3]], "offset_1e5s": [[10 ** 11, 10 ** 11 + 2], [10 ** 11 + 1, 10 ** 11 + 40], []],
+            "whole_seconds": [[0, 10 ** 6], [10 ** 6, 3 * 10 ** 6], [2 * 10 ** 6]], "all_empty": [[], [], []]}
+    for i, c in enumerate(_mix(rng, {"keys": list(keysets), "keyform": ["int", "npint64", "npint32", "str", "float", "int"], "pattern": list(pats), "kind": ["Ts", "Tsd", "Tsd"],
+                                     "members": ["objects", "objects", "arrays"], "t": ["ndarray", "list", "tuple", "tsindex", "view", "int64_us", "uint64_us", "int64_s", "series"],
+                                     "units": ["s", "ms", "us"], "member_dtype": ["float64", "float32", "int64", "int32", "uint8", "uint64", "bool", "float16"],
+                                     "bypass": [False, True], "sup": ["given", "given", "default"], "mkind": META_KINDS + ["none"] * 4, "how": META_HOW + ["ctor_kwargs"],
+                                     "style": ["mix", "kw", "pos"], "container": ["dict", "dict", "list"]}, 800 if big else 84)):
+        keys, pat = keysets[c["keys"]], pats[c["pattern"]]
+        if c["keys"] == "large" and c["keyform"] == "npint32":
+            c["keyform"] = "npint64"
+        container = c["container"] if c["keys"] == "contiguous" else "dict"
+        kind = "Ts" if c["members"] == "arrays" else c["kind"]
+        allt = sorted(v * US for ts in pat for v in ts)
+        tf, units = c["t"], c["units"]
+        if tf == "series" or (c["members"] == "arrays" and tf in ("tsindex", "tuple")):
+            tf = "pdindex" if c["members"] == "objects" else "ndarray"
+        given = c["sup"] == "given" or c["bypass"] or not allt or c["pattern"] == "all_empty" or len(set(allt)) < 2
+        # a member with one distinct timestamp would be emptied by its empty default support: it gets a second sample when no support is passed
+        tl = [[v * US for v in pat[j % len(pat)]] for j in range(len(keys))]
+        tl = [t + [t[0] + US] if (not given and len(set(t)) == 1) else t for t in tl]
+        if not all(_admissible(tf, units, t) for t in tl):
+            tf = "ndarray"
+        if tf != "ndarray" and (tf[-3:] in ("_us", "_ms") or tf.endswith("_s")) and c["members"] == "arrays":
+            units = {"_us": "us", "_ms": "ms"}.get(tf[-3:], "s")
+        if tf in ("tsindex", "t_attr"):
+            units = "s"
+        lo, hi = (allt[0], allt[-1]) if allt else (0, 40 * US)
+        sup = [[lo - 2 * US, hi + 2 * US]] if given else None
+        members = []
+        for j, key in enumerate(keys):
+            t = tl[j]
+            if c["member_dtype"] in ("float64", "float32", "float16"):
+                d = [(7 * j + i) % 9 * 0.25 - 1 for i in range(len(t))]
+            elif c["member_dtype"] == "bool":
+                d = [(j + i) % 2 for i in range(len(t))]
+            else:
+                d = [(10 * (j + 1) + i) % 200 for i in range(len(t))]
+            members.append([key, kind, t, d])
+        kinds = () if c["mkind"] == "none" else (c["mkind"],)
+        sp = {"cls": "TsGroup", "members": members, "sup": sup, "meta": _meta_cols(rng, kinds, len(keys))}
+        form = {"keys": c["keyform"], "members": c["members"], "t": tf, "units": units, "member_dtype": c["member_dtype"] if kind == "Tsd" else None,
+                "bypass_check": True if (c["bypass"] and c["members"] == "objects") else None, "meta": c["how"] if kinds else None, "style": c["style"],
+                "container": "list" if container == "list" else None, "member_sup": None if given else False}
+        out.append(_with_form(sp, {"keys": c["keys"], "pattern": c["pattern"], "members": kind, "sup": "1_intervals" if given else "default", "meta": "+".join(kinds) or "none"},
+                              form, "tsgroup_forms") + (vias(i),))
+    # an empty group built with ms / us arguments; integer member data that float64 cannot hold
+    for units in ("ms", "us"):
+        out.append(_with_form({"cls": "TsGroup", "members": [], "sup": [[0, 40 * US]], "meta": []}, {"keys": "no_members", "pattern": "no_members", "members": "none"},
+                              {"members": "arrays", "units": units, "sup": units}, "tsgroup_forms") + (("load_file", "folder"),))
+    for mdt, vals in (("int64", [2 ** 53 + 1, -(2 ** 53) - 1, 2 ** 62 + 1]), ("uint64", [2 ** 64 - 1, 2 ** 53 + 1, 5]), ("int64", [2 ** 53, -(2 ** 53), 2 ** 53 - 1])):
+        out.append(_with_form({"cls": "TsGroup", "members": [[1, "Tsd", [0, 3 * US, 10 * US], vals], [4, "Tsd", [US, 5 * US], [1, 2]]], "sup": [[0, 40 * US]], "meta": []},
+                              {"keys": "noncontiguous", "pattern": "all_nonempty", "members": "Tsd", "data": "integers_at_2p53:%s:%d" % (mdt, max(vals))},
+                              {"member_dtype": mdt}, "tsgroup_forms") + (("load_file", "folder"),))
+    # --- degenerate: every sample outside the time support that is passed (an empty series with a non-empty support), one interval holding no sample
+    for cls in ("Ts", "Tsd", "TsdFrame", "TsdTensor"):
+        for tn, sup in (("multi", [[50 * US, 60 * US]]), ("negative", [[0, 10 * US], [20 * US, 30 * US]]), ("multi", [[0, 10 * US], [11 * US, 19 * US], [20 * US, 40 * US]])):
+            outside = not any(a <= v <= b for v in _ticks_of(tn) for a, b in sup)
+            sp = _series_spec(cls, _ticks_of(tn), sup, "float64", "ramp", rng)
+            out.append(_with_form(sp, {"times": tn, "sup": "all_samples_outside" if outside else "an_interval_without_samples"}, {"outside_support": True if outside else None, "style": "mix"},
+                                  "degenerate_support") + (("load_file", "folder"),))
+    # --- F6: histories: the saved object is the result of one more public operation (or of a save + load)
+    series_h = {"Ts": ["slice", "step", "fancy", "mask", "get", "restrict", "restrict_same", "reload", "copy"],
+                "Tsd": ["slice", "step", "fancy", "mask", "get", "restrict", "restrict_same", "arith", "neg", "npabs", "npsqrt", "compare", "dropna", "to_tsgroup", "reload", "copy"],
+                "TsdFrame": ["slice", "step", "fancy", "mask", "get", "restrict", "arith", "npabs", "npsqrt", "compare", "colsel", "loc", "column", "dropna", "bin_average",
+                             "as_frame_int_labels_of_mixed", "reload", "copy"],
+                "TsdTensor": ["slice", "step", "fancy", "mask", "get", "restrict", "arith", "npsqrt", "compare", "column", "reload", "copy"],
+                "IntervalSet": ["slice", "fancy", "mask", "intersect", "set_diff", "union", "drop_short", "merge_close", "split", "reload", "copy"],
+                "TsGroup": ["subset", "mask", "restrict", "merge", "reload", "copy"]}
+    i = 0
+    for rep in range(3 if big else 1):
+        for cls, hs in series_h.items():
+            for h in hs + ([["restrict", "slice"], ["reload", "reload"], ["arith", "mask"]][rep % 3:][:1] if cls in ("Tsd", "TsdFrame", "TsdTensor") else []):
+                hist = h if isinstance(h, list) else [h]
+                if cls == "IntervalSet":
+                    iv = [[a * US, b * US] for a, b in rng.choice([[[0, 10], [20, 40], [50, 51]], [[-7, -3], [0, 1], [3, 9]]])]
+                    sp = {"cls": "IntervalSet", "iv": iv, "meta": _meta_cols(rng, rng.choice([(), ("int", "str"), ("float",)]), len(iv))}
+                    var = {"intervals": len(iv), "meta": len(sp["meta"])}
+                elif cls == "TsGroup":
+                    kind = rng.choice(["Ts", "Tsd"])
+                    keys = rng.choice([[0, 1, 2], [30, 2, 7]])
+                    pat = [[0, 3, 10], [3, 20, 40], [1, 33]]
+                    members = [[key, kind, [v * US for v in pat[j]], [100 * (j + 1) + q for q in range(len(pat[j]))]] for j, key in enumerate(keys)]
+                    sp = {"cls": "TsGroup", "members": members, "sup": [[0, 40 * US]], "meta": _meta_cols(rng, rng.choice([(), ("int", "str")]), 3)}
+                    var = {"keys": str(keys), "members": kind, "meta": len(sp["meta"])}
+                else:
+                    tn = rng.choice(["multi", "straddle0", "offset_1e5s", "dups"])
+                    t = _ticks_of(tn)
+                    sm, sup = rng.choice(_sup_modes(t))
+                    dt = "int64" if "to_tsgroup" in hist else rng.choice(["float64", "int64", "float32", "int16"])
+                    sp = _series_spec(cls, t, sup, dt, "ramp", rng, kinds=rng.choice([(), ("int", "str")]))
+                    if cls == "TsdFrame" and "as_frame_int_labels_of_mixed" in hist:
+                        sp = _series_spec(cls, t, sup, dt, "ramp", rng, cols=[5, 3, 9], kinds=())
+                    var = {"times": tn, "sup": sm, "dtype": dt}
+                out.append(_with_form(sp, dict(var, rep=rep), {"hist": hist}, "histories") + (vias(i),))
+                i += 1
+    # --- F7: every route (parameter forms of save / load_file / Folder) x every class
+    for rep in range(4 if big else 1):
+        reps_specs = [
+            _series_spec("Ts", _ticks_of("straddle0"), None, "float64", "ramp", rng),
+            _series_spec("Tsd", _ticks_of("multi"), [[0, 10 * US], [20 * US, 40 * US]], rng.choice(["int64", "float32"]), "ramp", rng),
+            _series_spec("TsdFrame", _ticks_of("multi"), None, "float64", "ramp", rng, cols=rng.choice([[5, 3, 9], ["s1", "s0", "s7"]]), kinds=("int", "str")),
+            _series_spec("TsdTensor", _ticks_of("negative"), None, "int64", "ramp", rng),
+            {"cls": "IntervalSet", "iv": [[0, 10 * US], [20 * US, 40 * US]], "meta": _meta_cols(rng, ("int", "str"), 2)},
+            {"cls": "TsGroup", "members": [[30, "Tsd", [0, 3 * US, 10 * US], [1, 2, 3]], [2, "Tsd", [], []], [7, "Tsd", [US, 33 * US], [4, 5]]], "sup": [[0, 40 * US]],
+             "meta": _meta_cols(rng, ("int", "str"), 3)},
+            {"cls": "TsGroup", "members": [[0, "Ts", [0, 3 * US, 10 * US], [0, 0, 0]], [1, "Ts", [US, 33 * US], [0, 0]]], "sup": [[0, 40 * US]], "meta": []},
+        ]
+        for sp in reps_specs:
+            out.append(_with_form(sp, {"rep": rep, "content": "%s_%d_metadata_columns_%s" % (sp["cls"], len(sp.get("meta") or []), sp["members"][0][1] if sp["cls"] == "TsGroup" else "")}, {"style": "mix"}, "routes")
+                       + (tuple(NEW_VIAS),))
+    return out
+
+
 # ---------------------------------------------------------------------------------------------- running one case
 def flags(nap, sp, x):
     """the fields of a violation key that describe the INPUT (each names one precise trigger of a recorded finding)"""
-    f = {"cls": sp["cls"]}
-    if sp["cls"] in ("Ts", "Tsd", "TsdTensor", "TsdFrame"):
+    hist = bool((sp.get("form") or {}).get("hist"))
+    cls = type(x).__name__ if hist else sp["cls"]          # a history may change the class of the object that is saved
+    f = {"cls": cls}
+    if cls in ("Ts", "Tsd", "TsdTensor", "TsdFrame"):
         # samples present, all at one instant, no time support passed: the constructor's default support is empty and the samples lie outside it
-        f["zero_span_default_support"] = bool(sp.get("sup") is None and len(x) > 0 and len(set(sp["t"])) == 1 and len(x.time_support) == 0)
-    if sp["cls"] == "TsdFrame":
+        f["zero_span_default_support"] = bool(sp.get("sup") is None and len(x) > 0 and len(set(x.t.tolist() if hist else sp["t"])) == 1 and len(x.time_support) == 0)
+        if (sp.get("form") or {}).get("outside_support"):
+            # every sample given to the constructor lies outside the time support that was passed: the object is empty and keeps that support
+            f["empty_series_keeps_nonempty_support"] = bool(len(x) == 0 and len(x.time_support) > 0)
+    if cls == "TsdFrame":
         cols = list(x.columns)
         f["repeated_labels"] = bool(len(set(cols)) < len(cols))
         f["has_metadata"] = bool(len(x._metadata.columns) > 0)
-    if sp["cls"] == "TsGroup":
-        kinds = set(m[1] for m in sp["members"])
+        # integer labels sitting in an object-dtype Index (what selecting the integer-labelled columns of a mixed-label frame gives)
+        f["int_labels_in_object_index"] = bool(len(cols) > 0 and x.columns.dtype == np.dtype("O")
+                                               and all(isinstance(c, (int, np.integer)) and not isinstance(c, (bool, np.bool_)) for c in cols))
+    if cls == "TsGroup":
+        kinds = set(m[1] for m in sp["members"]) if "members" in sp and not hist else set("Tsd" if isinstance(x[k], nap.Tsd) else "Ts" for k in x.keys())
         f["members"] = "Tsd" if kinds == {"Tsd"} else "Ts" if kinds == {"Ts"} else "none"
         f["dup_times"] = bool(any(len(set(x[k].t.tolist())) < len(x[k]) for k in x.keys()))
         f["all_members_empty"] = bool(len(x) > 0 and all(len(x[k]) == 0 for k in x.keys()))
+        # a member holds integer-dtype data with a cell that float64 cannot represent (|v| > 2**53 and not a float64 value)
+        f["member_int_not_a_float64"] = bool(any(hasattr(x[k], "values") and np.asarray(x[k].values).dtype.kind in "iu"
+                                                 and any(int(v) != int(float(int(v))) for v in np.asarray(x[k].values).ravel().tolist()) for k in x.keys()))
     return f
 
 
@@ -606,7 +1391,6 @@ def roundtrip(nap, x, d, via):
         return y, files, typ
     f = Folder(d)
     f.save("viafolder", x)
-    g = Folder(d)                      # a fresh Folder reads the file back (Folder.save caches the object itself)
     if via == "folder_overwrite":
         # the same LIVE folder: a first object saved and loaded under the name, then x saved over it and loaded again
         first = nap.Ts(np.array([1.0, 2.0, 3.0]))
@@ -617,14 +1401,86 @@ def roundtrip(nap, x, d, via):
         h.save("again", x)
         h.load()
         return h["again"], None, None
+    g = Folder(d)                      # a fresh Folder reads the file back (Folder.save caches the object itself)
     return g["viafolder"], None, None
 
 
-def run_case(nap, res, sp, var, d, lines, pending, use_oracle=True, overwrite=True):
+def route(nap, x, d, via):
+    """the other parameter forms of save / load_file / Folder (widening): -> list of loaded objects, EACH of which has to equal x"""
+    from pathlib import Path
+    from pynapple.io.folder import Folder
+    p = os.path.join(d, "obj.npz")
+    if via == "load_file_kw_path":                 # filename= keyword, a pathlib.Path without the suffix; path= keyword, a Path; lazy_loading at its default by keyword
+        x.save(filename=Path(d) / "objkw")
+        return [nap.load_file(path=Path(d) / "objkw.npz", lazy_loading=None)]
+    if via == "load_file_lazy_true":               # lazy_loading positional, True (documented: only matters for NWB)
+        x.save(p)
+        return [nap.load_file(p, True)]
+    if via == "load_file_lazy_false_kw":
+        x.save(os.path.join(d, "obj"))              # str without suffix
+        return [nap.load_file(p, lazy_loading=False)]
+    if via == "relative_path":
+        cwd = os.getcwd()
+        os.chdir(d)
+        try:
+            x.save("rel")
+            return [nap.load_file("rel.npz")]
+        finally:
+            os.chdir(cwd)
+    if via == "load_folder_subfolder":             # nap.load_folder, a sub-folder, Folder.save with every parameter by keyword and a description
+        os.makedirs(os.path.join(d, "sub"))
+        f = nap.load_folder(d)
+        f["sub"].save(name="inner", obj=x, description="a note")
+        g = nap.load_folder(Path(d))
+        return [g["sub"]["inner"]]
+    if via == "folder_load_all":                   # description positional; Folder.load() loads every file, then the name is looked up
+        f = Folder(d)
+        f.save("one", x, "first")
+        f.save("two", x)
+        g = Folder(d)
+        g.load()
+        return [g["one"], g["two"], g.data["one"]]
+    if via == "folder_dotted_name":
+        f = Folder(Path(d))
+        f.save("v1.2", x)
+        return [Folder(d)["v1.2"]]
+    if via == "saved_twice":                       # the same live object saved twice (two files)
+        x.save(p)
+        y1 = nap.load_file(p)
+        x.save(os.path.join(d, "second.npz"))
+        return [y1, nap.load_file(os.path.join(d, "second.npz"))]
+    if via == "reload_and_save_again":             # the loaded object is saved and loaded again
+        x.save(p)
+        y1 = nap.load_file(p)
+        y1.save(os.path.join(d, "again.npz"))
+        return [y1, nap.load_file(os.path.join(d, "again.npz"))]
+    if via == "same_file_twice":
+        x.save(p)
+        x.save(p)
+        return [nap.load_file(p)]
+    if via == "over_a_file_of_another_class":      # the file name held an object of another class (with metadata) before
+        other = nap.IntervalSet(np.array([0.0, 2.0]), np.array([1.0, 3.0]), metadata={"old": np.array([1, 2])}) if not isinstance(x, nap.IntervalSet) else \
+            nap.TsGroup({3: nap.Tsd(np.array([0.0, 1.0]), np.array([1.0, 2.0]))}, metadata={"old": np.array(["a"])})
+        other.save(p)
+        _ = nap.load_file(p)
+        x.save(p)
+        return [nap.load_file(p)]
+    raise ValueError(via)
+
+
+OLD_VIAS = ("load_file", "folder", "folder_overwrite")
+
+
+def run_case(nap, res, sp, var, d, lines, pending, use_oracle=True, overwrite=True, vias=None):
     try:
         x = build(nap, sp)
     except Exception as ex:
         res.count("build_failed:" + type(ex).__name__)
+        if sp.get("form"):
+            # every widened form is one the documented signatures accept: a constructor that refuses it is reported, not skipped
+            res.violations.append({"key": {"cls": sp["cls"], "part": "build_exception", "exception": type(ex).__name__, "family": var.get("family")},
+                                   "what": "building the object raised %s: %s" % (type(ex).__name__, str(ex)[:200]), "input": sp, "impl": type(ex).__name__,
+                                   "expected": "a " + sp["cls"]})
         return
     last = None
     fl = flags(nap, sp, x)
@@ -635,12 +1491,29 @@ def run_case(nap, res, sp, var, d, lines, pending, use_oracle=True, overwrite=Tr
     if not nontrivial:
         res.count("empty_objects")
     desc_x = describe(nap, x)
-    for via in ("load_file", "folder", "folder_overwrite") if overwrite else ("load_file", "folder"):
+    form = sp.get("form") or {}
+    if form:
+        res.count("widened_cases")
+        for k, v in form.items():
+            res.count("form:%s=%s" % (k, "+".join(v) if isinstance(v, list) else v))
+        for k in ("times", "sup", "dtype", "data", "labels", "intervals", "keys", "pattern", "members"):
+            if k in var:
+                res.count("content:%s=%s" % (k, var[k]))
+    canon_done = False
+    if vias is None:
+        vias = ("load_file", "folder", "folder_overwrite") if overwrite else ("load_file", "folder")
+    for via in vias:
         shutil.rmtree(d, ignore_errors=True)
         os.makedirs(d)
         files = typ = None
+        more = []
         try:
-            y, files, typ = roundtrip(nap, x, d, via)
+            if via in OLD_VIAS:
+                y, files, typ = roundtrip(nap, x, d, via)
+            else:
+                res.count("route:" + via)
+                ys = route(nap, x, d, via)
+                y, more = ys[-1], ys[:-1]
             ex = y if isinstance(y, Exception) else None
         except Exception as e:                                                               # noqa: BLE001
             ex = e
@@ -653,6 +1526,17 @@ def run_case(nap, res, sp, var, d, lines, pending, use_oracle=True, overwrite=Tr
         else:
             last = y
             bad = oracle(nap, x, y) if use_oracle else []
+            for z in more:                               # every object a route loads has to equal x
+                bad = bad or (oracle(nap, x, z) if use_oracle else [])
+            if use_oracle and not bad and via == "saved_twice":
+                # saving must not change the live object: what the second save wrote equals a freshly built x
+                bad = [("after_a_first_save:" + b[0],) + b[1:] for b in oracle(nap, build(nap, sp), y)]
+            if use_oracle and not bad and form and not form.get("hist") and not canon_done and not fl.get("member_int_not_a_float64"):
+                # the same instants / data / labels / metadata given in another argument form: the loaded object equals the object built from the
+                # canonical form (float64 seconds in an ndarray, ndarray data, list labels, metadata dict) - "the same instants give the same result"
+                # (the canonical group members are float64: no comparison where a member holds integers that float64 cannot represent)
+                canon_done = True
+                bad = [("other_argument_form:" + b[0],) + b[1:] for b in oracle(nap, build(nap, {k: v for k, v in sp.items() if k != "form"}), y)]
             for part, msg, detail in bad[:3]:
                 res.violations.append({"key": dict(fl, part=part, via=via, **detail), "what": "loaded object differs from the saved one in %s: %s" % (part, msg[:300]),
                                        "input": sp, "impl": describe(nap, y), "expected": desc_x})
@@ -724,7 +1608,31 @@ def run(res, tier, seed):
                 "(random frames may repeat labels, random Tsd may hold NaN / fractions). "
                 "oracle = same class, equal timestamps / data (NaN = NaN) / dtype / support / columns / keys / member classes / member supports / metadata "
                 "(incl. rate); an exception on save or load is a violation. The model is also asked about files the implementation fails to load (it must "
-                "answer `none`). non-trivial = the object is not empty")
+                "answer `none`). non-trivial = the object is not empty. "
+                "WIDENED (argument forms; families counted as family:*, every value as form:<axis>=<value>, every route as route:*; quick tier: every value "
+                "of every axis at least once per family by round robin over seeded shuffles, thorough tier ~8x more combinations): "
+                "[data dtype] Tsd / TsdFrame / TsdTensor x {float32, float16, int32, int16, int8, uint8, uint16, uint32, uint64, bool, complex64, complex128, "
+                "int64, float64} x {ramp, dtype extremes incl. NaN / +-inf / -0.0 / max / tiny, zeros, all equal} COMPLETE, the dtype has to come back; group "
+                "members of float32 / float16 / int / uint / bool data (values compared exactly, a Python int against a float), integer member data at 2**53; "
+                "metadata cells of every int / uint / float width, bool, uint64 beyond int64, Python lists / tuples, numpy unicode, free text. "
+                "[time argument form] t as ndarray, list, tuple, pandas Series / Index, another object's TsIndex, another object's .t, a non-contiguous view, a "
+                "read-only array, int64 / int32 / uint64 / uint32 / uint8 microseconds, int64 / uint16 milliseconds, int64 / int16 / uint64 / Python-int seconds, "
+                "a float / np.float64 / Python int / np.int64 scalar; IntervalSet start / end (also as the time support of the series) in the same forms plus a "
+                "2-d array, a DataFrame, an IntervalSet, a mixed list / array pair, unsorted input, the time_support of a live series. "
+                "[parameters] constructor arguments all positional / all by keyword / optional ones at their documented defaults; save(filename=) str / Path, with / "
+                "without suffix, relative; load_file(path=, lazy_loading= None / True / False, positional and keyword); Folder.save(name, obj, description) positional and "
+                "keyword, nap.load_folder, a sub-folder, Folder.load(), a dotted name; bypass_check=True; load_array=False (memmap). "
+                "[units] every time argument in s / ms / us (the loaded object has to equal the one built from float seconds). "
+                "[placement] negative times, samples and intervals straddling 0, 1e5 s offsets (us and ns spacing), whole seconds, samples on every interval end. "
+                "[degenerate] empty series / one sample in every form, an empty group built with ms / us, keys multi-digit / large / np.int64 / np.int32 / str / float / "
+                "a list instead of a dict. [classes] labels as tuple / ndarray / int32 / int16 / uint8 / uint64 / pandas Index / object-dtype Index, frames built "
+                "from a DataFrame, Tsd from a Series; metadata attached through the constructor (dict / DataFrame), set_info (kwargs / dict / DataFrame / Series), "
+                "item assignment, attribute assignment. [histories] the saved object is the result of slice / step / non-monotone fancy index / mask / get / "
+                "restrict / arithmetic / negation / np.abs / np.sqrt / comparison / column selection by position and by label / a single column / dropna / "
+                "bin_average / to_tsgroup / IntervalSet slice, index, mask, intersect, set_diff, union, drop_short, merge_close, split / group subset, mask, "
+                "restrict, merge_group / deepcopy / a previous save + load, also chained; the same live object saved twice, the same file written twice, a file "
+                "that held another class, a loaded object saved again. Extra oracle clauses for these cases: every object a route loads equals x; a second save "
+                "writes a freshly built x (save does not mutate); the object loaded from another argument form equals the object built from the canonical form")
     res.exhaustive = True
     base = os.path.join(SCRATCH, "%d" % os.getpid())
     shutil.rmtree(base, ignore_errors=True)
@@ -742,6 +1650,14 @@ def run(res, tier, seed):
             # structured case (every class and variant family still meets it) and on all random cases; thorough tier on every case
             run_case(nap, res, sp, dict(var, n=n) if var.get("random") else var, os.path.join(base, "c"), lines, pending,
                      overwrite=(tier != "quick" or bool(var.get("random")) or n % 3 == 0))
+        # widened input classes (argument forms): own seeded stream, so that the cases above are the same as before for a given seed
+        wide = form_specs(random.Random(seed * 13 + 7), tier)
+        res.count("widened_generated", len(wide))
+        for n, (sp, var, vias) in enumerate(wide):
+            res.count("family:" + var.get("family", "?"))
+            run_case(nap, res, sp, dict(var, n=n) if var.get("family") in ("time_forms", "frame_labels_metadata", "intervalset_forms", "tsgroup_forms") else var,
+                     os.path.join(base, "c"), lines, pending, vias=vias)
+            del _KEEP[:]
         for sp, var in outside_specs():
             res.count("outside_quantifier_correspondence_only")
             run_case(nap, res, sp, var, os.path.join(base, "c"), lines, pending, use_oracle=False)
@@ -776,22 +1692,29 @@ def replay(payload):
     try:
         x = build(nap, sp)
         print("saved   :", describe(nap, x))
-        for via in ("load_file", "folder", "folder_overwrite"):
+        named = (v.get("key") or {}).get("via")
+        for via in ("load_file", "folder", "folder_overwrite") + ((named,) if named in NEW_VIAS else ()):
             d = os.path.join(base, via)
             os.makedirs(d)
             try:
-                y, _, _ = roundtrip(nap, x, d, via)
-                if isinstance(y, Exception):
-                    raise y
+                if via in OLD_VIAS:
+                    ys = [roundtrip(nap, x, d, via)[0]]
+                else:
+                    ys = route(nap, x, d, via)
+                if isinstance(ys[-1], Exception):
+                    raise ys[-1]
             except Exception as ex:
                 print("%-9s: raised %s: %s" % (via, type(ex).__name__, ex))
                 rc = 1
                 continue
-            bad = oracle(nap, x, y)
-            print("%-9s: %s" % (via, describe(nap, y)))
-            for part, msg, detail in bad:
-                print("   differs in %s: %s %s" % (part, msg, detail or ""))
-                rc = 1
+            for y in ys:
+                bad = oracle(nap, x, y)
+                if not bad and sp.get("form") and not sp["form"].get("hist"):
+                    bad = [("other_argument_form:" + b[0],) + b[1:] for b in oracle(nap, build(nap, {k: u for k, u in sp.items() if k != "form"}), y)]
+                print("%-9s: %s" % (via, describe(nap, y)))
+                for part, msg, detail in bad:
+                    print("   differs in %s: %s %s" % (part, msg, detail or ""))
+                    rc = 1
     finally:
         shutil.rmtree(base, ignore_errors=True)
         try:
